@@ -2,6 +2,7 @@ package api
 
 import (
 	"fmt"
+	"math"
 	"math/rand"
 	"strconv"
 	"strings"
@@ -243,6 +244,9 @@ func checkBlockIDLen(id string) error {
 }
 
 func checkMinerDiskSize(sk mining.SpaceKeeperV1, requiredMiBytes uint64) error {
+	if requiredMiBytes > math.MaxUint64/poc.MiB {
+		return status.New(ErrAPIMinerInvalidCapacity, "capacity is too large").Err()
+	}
 	var requiredBytes = requiredMiBytes * poc.MiB
 	if requiredBytes < poc.ProofTypeDefault.PlotSize(poc.MinValidDefaultBitLength) {
 		return status.New(ErrAPIMinerInvalidCapacity, "capacity should be no less than 96 MiB").Err()
@@ -258,6 +262,9 @@ func checkMinerDiskSize(sk mining.SpaceKeeperV1, requiredMiBytes uint64) error {
 }
 
 func checkPathDiskSize(path string, requiredMiBytes uint64) error {
+	if requiredMiBytes > math.MaxUint64/poc.MiB {
+		return status.New(ErrAPIMinerInvalidCapacity, "capacity is too large").Err()
+	}
 	var requiredBytes = requiredMiBytes * poc.MiB
 	if requiredBytes < poc.ProofTypeDefault.PlotSize(poc.MinValidDefaultBitLength) {
 		return status.New(ErrAPIMinerInvalidCapacity, "capacity should be no less than 96 MiB").Err()
@@ -273,6 +280,9 @@ func checkPathDiskSize(path string, requiredMiBytes uint64) error {
 }
 
 func checkMinerPathCapacity(sk mining.SpaceKeeperV1, path string, requiredMiBytes uint64) error {
+	if requiredMiBytes > math.MaxUint64/poc.MiB {
+		return status.New(ErrAPIMinerInvalidCapacity, "capacity is too large").Err()
+	}
 	var requiredBytes = requiredMiBytes * poc.MiB
 	return sk.IsCapacityAvailable(path, requiredBytes)
 }
